@@ -109,7 +109,7 @@ func c17Start(n int, maxCount int64) (*c17Cluster, error) {
 	}
 	for i := 0; i < n; i++ {
 		dir := filepath.Join(tmp, fmt.Sprintf("node%d", i))
-		nd, err := cluster.NewNode(cluster.ClusterNodeConfig{
+		nd, err := startNode(cluster.ClusterNodeConfig{
 			RootDir:    dir,
 			RpcHost:    "localhost",
 			RpcPort:    ports[i],
